@@ -140,20 +140,7 @@ fn judge_solved(family: &str, problem: &PProblem, scen: Value, scope: Scope, sol
             let violations = findings
                 .into_iter()
                 .filter(|f| oracle::in_scope(f, scope))
-                .filter(|f| {
-                    !(family == "cluster" || problem.clustering.is_some())
-                        || f.rule.starts_with("C02:")
-                        || f.rule == "C03:statistic-total"
-                        || f.rule.starts_with("C03:commute-")
-                        || f.rule == "C03:statistic-commuting"
-                        || f.rule == "C03:statistic-parking"
-                        || [
-                            "C01:skills", "C01:group", "C01:compatibility", "C01:capacity", "C01:negative-load", "C01:cluster-time-window", "C01:tour-size",
-                            "C01:relation-vehicle", "C01:relation-order", "C01:relation-contiguity", "C01:task-order", "C01:resource", "C01:shift-end",
-                            "C01:shift-start", "C01:shift-start-latest", "C01:unreachable-leg",
-                        ].contains(&f.rule.as_str())
-                })
-                .filter(|f| family != "reqbreak" || f.rule.starts_with("C02:") || f.rule.starts_with("C01:required-break") || f.rule == "C01:capacity" || f.rule == "C03:required-break-outside-tour")
+                .filter(|f| oracle::applies(f, family, problem))
                 .map(|f| (finding_key(&f, family, problem), f))
                 .filter(|(key, _)| seen.insert(key.clone()))
                 .map(|(key, f)| Violation::new(key, f.what, scen.clone()))
